@@ -234,7 +234,8 @@ def gen_surf_case(rng, max_faces):
         planar = False
         mesh = dict(mesh, seed_kind=mesh["seed_kind"] + "+coincident")
     case = {"kind": "surf", "V": V, "F": F, "ops": ops, "query": rng.random() < 0.5,
-            "planar": planar, "seed_kind": mesh["seed_kind"], "np_ints": rng.random() < 0.3}
+            "planar": planar, "seed_kind": mesh["seed_kind"], "np_ints": rng.random() < 0.3,
+            "via_geogram": rng.random() < 0.15}
     if rng.random() < 0.08:
         case["ops"] = ops + [[rng.choice(["fan", "triface"]), len(ar) + rng.randrange(3), "pos"]]
         case["expect_error"] = True
@@ -281,7 +282,7 @@ def gen_vol_case(rng):
             nF += 2
             nC += 2
     case = {"kind": "vol", "V": mesh["V"], "C": mesh["C"], "ops": ops, "query": rng.random() < 0.5,
-            "seed_kind": mesh["seed_kind"], "np_ints": rng.random() < 0.3}
+            "seed_kind": mesh["seed_kind"], "np_ints": rng.random() < 0.3, "via_geogram": rng.random() < 0.2}
     if rng.random() < 0.1:
         case["ops"] = ops + [rng.choice([["cellfan", nC + 50], ["facecentre", nF + 50]])]
         case["expect_error"] = True
@@ -547,6 +548,8 @@ def run(ctx):
         ctx.count("queried-before" if c.get("query") else "not-queried-before")
         if o.get("status") == "err":
             ctx.count("raised " + o["err"].split(":")[0])
+        if o.get("via_geogram"):
+            ctx.count("input through a geogram_ascii file: " + o["via_geogram"].split(":")[0])
         if o.get("status") == "ok" and "F" in o["res"]:
             ctx.count("result faces<=%d" % (10 ** len(str(max(1, len(o["res"]["F"]) - 1)))))
         ctx.case_seen(strip(c), nontrivial=nontrivial(c, o),
